@@ -24,6 +24,7 @@ OutOf(s, op) ==
       [] op.op = "reject"  -> RejectOut(s, op.t, op.a, op.by)
       [] op.op = "data"    -> DataOut(s, op.a)
       [] op.op = "expire"  -> ExpireOut(s)
+      [] op.op = "throttleexpire" -> ThrottleExpireOut(s)
       [] op.op = "waiting" -> WaitingOut(s, op.a, IF "cid" \in DOMAIN op THEN op.cid ELSE 0, op.by)
       [] op.op = "indag"   -> InDagOut(s, op.a, IF "cid" \in DOMAIN op THEN op.cid ELSE 0, op.by)
       [] op.op = "balance" -> BalanceOut(s, op.a, op.d, op.by)
